@@ -11,6 +11,7 @@ def _c01():
     return [
         ("R-DISPATCH", "every command named by the property has a dispatcher arm that reaches the storage engine, with the effect class (read-only / mutating) and the storage primitive its reference semantics need",
          rules_cmd.make_dispatch_rule("C01")),
+        ("R-BYTES-ENGINE", "every bytes-only argument (key, value, member, field, field map) the command layer hands to the storage engine carries the client's bytes: no lossy / UTF-8-only decoding, case mapping, cutting or sorting on its value flow inside the handler", rules_cmd.make_bytes_engine_rule("C01")),
         ("R-ATOMIC", "no validation refusal is reachable after a dataset mutation (handlers: after the success continuation of a mutating engine call; engine methods: after a DATA-MUT site)",
          rules_cmd.rule_atomic("C01")),
         ("R-INT-CANON", "integers stored as text are read through the std i64 parser plus a round-trip (canonical form, whole i64 range); the INCR family takes the stored number from such a parser", rules_int.make_int_canon("C01")),
@@ -22,6 +23,7 @@ def _c01():
 def _c02():
     return [
         ("R-DISPATCH", "EXPIRE/PEXPIRE/PERSIST/TTL/PTTL have arms with the right effect class and primitive", rules_cmd.make_dispatch_rule("C02")),
+        ("R-EMPTY", "a key whose collection a command empties is removed with its metadata (an empty value left stored keeps its deadline, and the key re-created by the next push inherits it)", rules_cmd.rule_empty),
         ("R-EXPIRE-X1", "every lookup of the shard map in a storage-engine method flows into is_expired() (lazy expiry independent of the sweeper)", rules_expire.rule_x1()),
         ("R-EXPIRE-X2", "the sweeper removes a key only under a dominating is_expired() test of the stored value, inside the same write-lock scope", rules_expire.rule_x2),
         ("R-EXPIRE-X3", "deadline written only by the ValueMetadata setters; TTL setters are called only from dedicated TTL functions; every insert stores a fresh StoredValue or (RENAME) the one it removed", rules_expire.rule_x3),
@@ -36,9 +38,12 @@ def _c02():
 def _c04():
     return [
         ("R-DISPATCH", "every sorted-set command named by the property has a dispatcher arm reaching the engine with the right effect class and skip-list primitive", rules_cmd.make_dispatch_rule("C04")),
+        ("R-BYTES-ENGINE", "every bytes-only argument (key, value, member, field, field map) the command layer hands to the storage engine carries the client's bytes: no lossy / UTF-8-only decoding, case mapping, cutting or sorting on its value flow inside the handler", rules_cmd.make_bytes_engine_rule("C04")),
         ("R-ATOMIC", "a refused multi-member ZADD adds nothing: no validation refusal reachable after the first mutation", rules_cmd.rule_atomic("C04")),
         ("R-NAN", "every score handed to SkipList::insert in the engine is dominated by an is_nan()/is_finite() refusal of that very value", rules_zset.rule_nan),
         ("R-NAN-FRONT", "each ZADD/ZINCRBY front end (direct handler, script-side parser) tests every score it parses for NaN itself, before the engine is called for the first pair", rules_zset.rule_nan_frontends),
+        ("R-BOUNDS-USED", "an engine method taking the two score bounds answers from a call that received both (ZCOUNT = |ZRANGEBYSCORE| for infinite and reversed bounds too), with the empty answer, or behind exact tests of both bounds", rules_zset.rule_bounds_used),
+        ("R-SCORE-EXTREMES", "no score-range call receives the finite extremes f64::MIN / f64::MAX as a bound (infinities are scores: `everything` is -inf..+inf or an unfiltered walk)", rules_zset.rule_score_extremes),
         ("R-SKIP-PAIR", "key index, node links and length stay in step: index insert -> node link, re-score unlinks before linking, index remove -> unlink, length written only by link/unlink", rules_zset.rule_skip_pair),
         ("R-EMPTY", "removing the last member removes the key", rules_cmd.rule_empty),
         ("R-ZSET-LATEST", "an engine method that writes scores returns success only after handing the score to SkipList::insert, or after an exact == showed the stored score already equals it (each member holds its latest score)", rules_zset.rule_latest),
@@ -70,6 +75,7 @@ def _c09():
         ("R-RDB-LEN", "length encoding: encoder class bounds, tags, masks, shifts and byte order are consistent with the decoder's class switch; no silent truncation; scalar byte-order pairs", rules_rdb.rule_len),
         ("R-RDB-SHAPE", "per variant the sequence of primitive writes (with loop nesting) equals the sequence of primitive reads; expiry prefix mirrored", rules_rdb.rule_shape),
         ("R-RDB-COUNT", "the element count written is len() of the very collection iterated", rules_rdb.rule_count),
+        ("R-SCORE-EXTREMES", "no score-range call receives the finite extremes f64::MIN / f64::MAX as a bound (infinities are scores: `everything` is -inf..+inf or an unfiltered walk)", rules_zset.rule_score_extremes),
         ("R-RDB-TYPE", "the loader decides the value type from the opcode only (no comparison of payload bytes with a constant)", rules_rdb.rule_type),
         ("R-RDB-EXPIRED", "a record carrying an expiry is never loaded as a persistent key", rules_rdb.rule_expired_on_load),
         ("R-RDB-TTLAPPLY", "the record loader returns successfully only after handing the record's TTL to a storage call, or where the TTL is known to be None (every value type keeps its deadline across a restart)", rules_rdb.rule_ttl_applied),
@@ -115,6 +121,7 @@ def _c12():
         ("R-LUA-BLOCK", "connection, blocking, transaction, pub/sub, scripting and process commands are refused by the script front end, and nothing the executor implements escapes the block list", rules_lua.rule_block),
         ("R-PARITY", "every catalogue command dispatched by the server is implemented by the script-side executor with the same effect class and storage primitive", rules_lua.rule_parity),
         ("R-LUA-SHA", "EVALSHA executes the cached source unmodified through the EVAL entry with the caller's database", rules_lua.rule_sha),
+        ("R-DB-HANDOVER", "every hand-over of a parsed command to the script-side executor carries the caller's database (db_override set to Some(non-constant), or a connection context on the receiver): a script command never falls back to database 0", rules_db.rule_db_handover),
         ("R-DB", "scripts act on the connection's database (see C18)", rules_db.rule_db),
         ("R-BIN", "KEYS/ARGV/arguments/replies cross the Lua boundary without lossy or UTF-8-only conversions", rules_lua.rule_bin_script),
         ("R-LUA-PCALL", "every error the shared redis.call/redis.pcall body can return to the VM is raised by the helper that branches on is_pcall (error-origin analysis)", rules_lua.rule_pcall),
@@ -158,6 +165,7 @@ def _c14():
 def _c15():
     return [
         ("R-DISPATCH", "every stream command named by the property has a dispatcher arm with the right effect class and Stream primitive", rules_cmd.make_dispatch_rule("C15")),
+        ("R-BYTES-ENGINE", "every bytes-only argument (key, value, member, field, field map) the command layer hands to the storage engine carries the client's bytes: no lossy / UTF-8-only decoding, case mapping, cutting or sorting on its value flow inside the handler", rules_cmd.make_bytes_engine_rule("C15")),
         ("R-ST-GUARD", "an explicit-ID append is dominated by the `id > last_id` test; the refusal edge has no effect", rules_stream.rule_guard),
         ("R-ST-LASTID", "only additions write the last-ID state (field and atomics), both views move together; trim/delete never write it", rules_stream.rule_lastid),
         ("R-ST-PAIR", "every change of the entry vector has the matching length-counter update in the same function", rules_stream.rule_st_pair),
@@ -194,6 +202,7 @@ def _c17():
         ("R-AUTH-SET", "ConnectionState::Authenticated is stored only at accept without password, after a full password equality in AUTH (for the calling connection), or when leaving Blocked", rules_auth.rule_set),
         ("R-AUTH-FAIL", "the failed-AUTH edge performs no state-changing call", rules_auth.rule_fail),
         ("R-AUTH-PWSRC", "the configured password reaches the field the gate and AUTH compare against exactly as written: no case mapping, lossy decoding, replacement or cutting on the (interprocedural) data flow into a password field", rules_auth.rule_pwsrc),
+        ("R-AUTH-ARG", "the password the client supplied reaches the comparison strictly decoded or as bytes: no lossy decoding, case mapping, trimming or cutting on its value flow", rules_auth.rule_auth_arg),
         ("R-AUTH-FAILCLOSED", "when the configuration file cannot be loaded no server start is reachable on the error edge (the password in it is not silently replaced by the password-less defaults)", rules_auth.rule_config_failclosed),
     ]
 
@@ -224,6 +233,7 @@ def _c07():
         ("R-TX-ATOMIC", "nothing reachable from EXEC re-enters the event loop or blocks the command thread", rules_tx.rule_tx_atomic(lambda ctx: [SERVER + "handle_exec"], "EXEC")),
         ("R-TX-CONN", "re-dispatched queued commands receive the executing connection's id, not a constant", rules_tx.rule_tx_conn),
         ("R-TXNORESP", "nothing reachable from EXEC can yield NoResponse or register a blocked client", rules_conn.rule_txnoresp),
+        ("R-DB-EXEC", "EXEC reads the connection's database anew before every queued command: a queued SELECT (in any spelling the dispatcher accepts) governs the commands queued behind it, so the outcome is that of the commands run in order", rules_db.rule_exec_db),
     ]
 
 
@@ -244,12 +254,14 @@ def _c18():
         ("R-TX-CONN", "queued commands are re-dispatched with the executing connection's identity (SELECT inside MULTI)", rules_tx.rule_tx_conn),
         ("R-DB-EXEC", "in EXEC's loop the database of each queued command is read from the connection earlier in the same iteration (a queued SELECT governs the commands behind it)", rules_db.rule_exec_db),
         ("R-DB-WAKE", "the wake path of a blocking pop uses the database recorded in the wake-up request (where the client blocked), never the connection's current selection", rules_db.rule_wake_db),
+        ("R-DB-HANDOVER", "a function that takes its database from a field of a struct it is handed (the executor: cmd.db_override, default 0) is called only with that field set to Some(non-constant) by the caller", rules_db.rule_db_handover),
     ]
 
 
 def _c03():
     return [
         ("R-DISPATCH", "every list/set/hash command named by the property has a dispatcher arm reaching the engine with the right effect class and storage primitive (e.g. LPUSH must reach a front insertion, RPOP a back removal)", rules_cmd.make_dispatch_rule("C03")),
+        ("R-BYTES-ENGINE", "every bytes-only argument (key, value, member, field, field map) the command layer hands to the storage engine carries the client's bytes: no lossy / UTF-8-only decoding, case mapping, cutting or sorting on its value flow inside the handler", rules_cmd.make_bytes_engine_rule("C03")),
         ("R-ATOMIC", "no validation refusal reachable after a dataset mutation (handlers and engine methods of these commands)", rules_cmd.rule_atomic("C03")),
         ("R-EMPTY", "every engine method that shrinks a collection has a reachable emptiness test followed by removal of the key", rules_cmd.rule_empty),
         ("R-INT-CANON", "HINCRBY reads the stored field through the canonical integer parser (std parse over the whole i64 range + round trip)", rules_int.make_int_canon("C03")),
